@@ -90,6 +90,9 @@ def gen_tree(rnd, nfiles=3, stmts=(0, 12), structured=False, idclass="none", fra
                 if structured and not nokvp:
                     rtxt = str(rid) if (rnd.random() > 0.15 or rid > 99999) else "%0*d" % (rnd.choice([2, 5, 10]), rid)
                     kv_ref = ("valid", rtxt, rnd.randrange(0, f["nkv"] + 1))
+                    if rnd.random() < 0.1:
+                        # the reference key written with a capture modifier of the log crate
+                        kv_ref = kv_ref + (rnd.choice(["ref:?", "ref:%", "ref:debug", "ref:display"]),)
                 else:
                     f["ref"] = "valid"
             if nokvp:
